@@ -200,3 +200,92 @@ func (g *gen) runExtra() {
 		g.drop(base)
 	}
 }
+
+// I. truly concurrent readers: K goroutines fetch and read K different responses on one client at the
+// same time (every one with its own read-size pattern), closing each body twice.  The interleaving is
+// up to the scheduler, the expected outcome is not: every body is its own payload.  Complements the
+// deterministic sequences (a recycled object that is still being read when it is handed out again).
+func (g *gen) runConcurrent() {
+	r, rng := g.r, g.rng.Fork()
+	rounds := r.Scale(32, 300)
+	for n := 0; n < rounds; n++ {
+		cl := seqClients[n%len(seqClients)]
+		g.w.client(cl.stack, cl.cfg) // created before the goroutines start
+		theme := (n + n/len(seqClients)) % 4
+		const K = 5
+		xs := make([]exchange, K)
+		xids := make([]string, K)
+		for k := 0; k < K; k++ {
+			c := codings[0]
+			if cl.cfg.Auto {
+				c = codings[theme]
+				if rng.Chance(25) {
+					c = codings[rng.Intn(4)]
+				}
+			}
+			kind := reqKinds[0]
+			if cl.stack == "h1" && cl.cfg.Auto && c.class == "gzip" && rng.Chance(60) {
+				kind = reqKinds[1]
+			}
+			size := hk.Pick(rng, []int{300, 2500, 4097, 9000, 20000, 40000})
+			seed := uint64(g.nextID+1)*7919 + uint64(rng.Intn(1000)) + 1
+			s := g.newScript(payload{fmt.Sprintf("gen%d", size), genPayload(seed, size)}, c, rng.Bool(), "application/octet-stream")
+			s.GenSeed = seed
+			xs[k] = exchange{Stack: cl.stack, Cfg: cl.cfg, Req: kind, S: s, Pat: hk.Pick(rng, readPats[:])}
+			if len(xs[k].Pat) == 1 && xs[k].Pat[0] == 1 {
+				xs[k].Pat = []int{7, 1, 64}
+			}
+			g.w.xn++
+			xids[k] = fmt.Sprintf("%d", g.w.xn)
+		}
+		res := make([]obs, K)
+		done := make(chan int, K)
+		for k := 0; k < K; k++ {
+			go func(k int) {
+				defer func() {
+					if e := recover(); e != nil {
+						res[k] = obs{Fatal: fmt.Sprintf("panic: %v", e)}
+					}
+					done <- k
+				}()
+				res[k] = g.w.exchange(xs[k], xids[k])
+			}(k)
+		}
+		finished := map[int]bool{}
+		timeout := timeAfter(g.w.watchdog())
+	wait:
+		for len(finished) < K {
+			select {
+			case k := <-done:
+				finished[k] = true
+			case <-timeout:
+				g.w.hangs++
+				break wait
+			}
+		}
+		for k := 0; k < K; k++ {
+			o := obs{Fatal: "hang: no result within the watchdog limit"}
+			if finished[k] {
+				o = res[k]
+			}
+			g.w.o.mu.Lock()
+			o.SeenAE = g.w.o.seen[xids[k]].AE
+			delete(g.w.o.seen, xids[k])
+			g.w.o.mu.Unlock()
+			x, s := xs[k], xs[k].S
+			r.Count("concurrent.client=" + cl.stack + "/" + cl.cfg.name())
+			r.Count("concurrent.ce=" + s.CEClass)
+			desc := map[string]interface{}{"kind": "concurrent-exchange", "round": n, "of": K, "stack": x.Stack, "cfg": x.Cfg, "req": x.Req,
+				"script": s, "served_len": len(s.Served), "payload_len": len(s.Payload), "read_sizes": x.Pat, "observed": o}
+			if kind, what := verdict(x, o); kind != "" {
+				r.Fail(hk.Failure{Sig: fmt.Sprintf("concurrent:%s:%s:%s:%s:ce=%s", kind, x.Stack, x.Cfg.name(), x.Req.name(), s.CEClass),
+					What: fmt.Sprintf("one of %d responses read at the same time: %s", K, what), Input: desc})
+			}
+			key := fmt.Sprintf("conc|%d|%s|%s|%d|%v", n, x.Stack, x.Cfg.name(), s.ID, x.Pat)
+			r.Add(hk.Case{Coq: coqCase(x, o), Desc: desc}, key, true)
+		}
+		for k := 0; k < K; k++ {
+			g.drop(xs[k].S)
+		}
+	}
+}
